@@ -217,6 +217,9 @@ fn run(ctx: &mut Ctx) {
     ctx.cases("threshold-gaps", n, |ctx, i, rng| {
         let (r, phi) = (rng.range(0.11, 0.19), rng.range(-PI, PI));
         let npieces = 2 + rng.usize(2);
+        // one case in three is compact: pieces a few mm long and a hole of 3.01..5.4 cm, so that everything lies within
+        // 3 cm of the common centroid although the pieces are not linked
+        let compact = i % 3 == 2;
         let mut z = if i % 2 == 0 { rng.range(0.6, 0.95) } else { rng.range(-1.1, 0.5) };
         let mut pts: Vec<SpacePoint> = Vec::new();
         let mut cur_phi = phi;
@@ -224,13 +227,13 @@ fn run(ctx: &mut Ctx) {
             let np = 7 + rng.usize(6);
             for k in 0..np {
                 if k > 0 {
-                    z += rng.range(0.003, 0.012);
+                    z += if compact { rng.range(0.0002, 0.0008) } else { rng.range(0.003, 0.012) };
                 }
                 pts.push(sp(r, cur_phi, z));
             }
             if piece + 1 < npieces {
                 let delta = *rng.pick(&[1e-10, 1e-9, 5e-9, 2e-8, 5e-8, 1e-7, 1e-6]) * if rng.chance(0.3) { -1.0 } else { 1.0 };
-                let want = 0.03 + delta;
+                let want = if compact { rng.range(0.0301, if npieces == 2 { 0.054 } else { 0.04 }) } else { 0.03 + delta };
                 // next piece starts `want` away: straight up, or with a transverse step of up to 2 cm
                 let dphi = if rng.bool() { 0.0 } else { rng.range(0.0, 0.02) / r };
                 let chord = 2.0 * r * (dphi / 2.0).sin();
